@@ -1913,6 +1913,10 @@ def _read_next_form(ctx: ReaderContext, owed_by: str) -> RawReaderForm:
     v = _read_next_consuming_comment(ctx)
     if v is ctx.eof:
         raise ctx.eof_error(f"Unexpected EOF in {owed_by}")
+    if _should_splice_reader_conditional(ctx, v):
+        raise ctx.syntax_error(
+            f"Splicing reader conditional may only appear in a collection; got it as the {owed_by}"
+        )
     return v
 
 
